@@ -6,14 +6,26 @@
              mathematical result computed from the operands the implementation itself reported);
      kind 1: the snapshot satisfies the property but differs from what the model of the code computes.
    treeset / treebidimap are evaluated on the red-black-tree models of C01 (C09/TreeModel.v: rb_set_step, rb_bidi_step,
-   ts_union / ts_inter / ts_diff) with the built-in int comparator [zcmp]. *)
+   ts_union / ts_inter / ts_diff) with the comparator the harness built the container with: a [cmpsel], interpreted
+   by [cmp_of] to a Z-valued function on the key NUMBERS (ordered key types are numbered in ascending key order, so the
+   function has the sign of the real comparator on the real keys - the only thing correct tree code looks at; the real
+   comparators return -1/0/+1, a - b, (b - a) * 7, ... with magnitudes that vary with the keys). *)
 From VF Require Import Common.Base C09.Model C09.Spec C09.TreeModel.
 From VF Require C01.Order.
 Local Open Scope Z_scope.
 
 Inductive mkind := KHash | KLinked.
-Inductive skind := SHash | SLinked | STree.
-Inductive bkind := BHash | BTree.
+(* comparator shapes: the built-in three-valued one, and k * (a - b) for k <> 0 (k < 0: descending order) *)
+Inductive cmpsel := CBuiltin | CLin (k : Z).
+Definition cmp_of (c : cmpsel) (a b : Z) : Z :=
+  match c with
+  | CBuiltin => VF.C01.Order.zcmp a b
+  | CLin k => (a - b) * k
+  end.
+Definition cmpsel_ok (c : cmpsel) : bool := match c with CBuiltin => true | CLin k => negb (k =? 0) end.
+
+Inductive skind := SHash | SLinked | STree (c : cmpsel).
+Inductive bkind := BHash | BTree (ck cv : cmpsel).
 Inductive aop := AUnion | AInter | ADiff.
 
 Fixpoint insZ (x : Z) (l : list Z) : list Z :=
@@ -108,7 +120,10 @@ Definition sobs_ok {S} (step : S -> sop Z -> S * sout Z) (ordered : bool) (s : S
 
 Definition zcmp := VF.C01.Order.zcmp.
 Definition hs_model := gs_step Z.eqb (@ins_front Z unit).
-Definition ts_model := rb_set_step zcmp.                 (* red-black treeset, C01/Containers.v *)
+Definition ts_model (c : cmpsel) := rb_set_step (cmp_of c).      (* red-black treeset, C01/Containers.v *)
+(* enumerated in the comparator's order *)
+Fixpoint sorted_by (cmp : Z -> Z -> Z) (l : list Z) : bool :=
+  match l with x :: ((y :: _) as t) => (cmp x y <? 0) && sorted_by cmp t | _ => true end.
 Definition ls_model := ls_step Z.eqb (@ins_front Z unit).
 Definition oset_spec := oset_step Z.eqb.
 
@@ -120,13 +135,13 @@ Definition gs_check (univ : list Z) (st : list (Z * unit) * list Z) (x : sop Z *
   ((m', o'), kind_of (sobs_ok hs_model false m' univ sn)
                      (sobs_ok oset_spec false o' univ sn && nodupZ (s_values sn))).
 
-Definition ts_check (univ : list Z) (st : ts_state (K:=Z) * list Z) (x : sop Z * ssnap) :=
+Definition ts_check (c : cmpsel) (univ : list Z) (st : ts_state (K:=Z) * list Z) (x : sop Z * ssnap) :=
   let '(m, o) := st in
   let '(op, sn) := x in
-  let m' := fst (ts_model m op) in
+  let m' := fst (ts_model c m op) in
   let o' := fst (oset_spec o op) in
-  ((m', o'), kind_of (sobs_ok ts_model true m' univ sn)
-                     (sobs_ok oset_spec false o' univ sn && nodupZ (s_values sn) && strictly_sorted (s_values sn))).
+  ((m', o'), kind_of (cmpsel_ok c && sobs_ok (ts_model c) true m' univ sn)
+                     (sobs_ok oset_spec false o' univ sn && nodupZ (s_values sn) && sorted_by (cmp_of c) (s_values sn))).
 
 Definition ls_check (univ : list Z) (st : lset Z * list Z) (x : sop Z * ssnap) :=
   let '(m, o) := st in
@@ -186,7 +201,7 @@ Definition bij_obs_ok (ku vu : list Z) (sn : bsnap) : bool :=
   && forallb (fun k => memZ k ku) (b_keys sn) && forallb (fun v => memZ v vu) (b_vals sn).
 
 Definition hb_model := hb_step Z.eqb Z.eqb (@ins_front Z Z) (@ins_front Z Z).
-Definition tb_model := rb_bidi_step zcmp zcmp 0 0.       (* two red-black trees, C01/Containers.v *)
+Definition tb_model (ck cv : cmpsel) := rb_bidi_step (cmp_of ck) (cmp_of cv) 0 0.       (* two red-black trees, C01/Containers.v *)
 Definition bij_spec := bij_step Z.eqb Z.eqb.
 
 Definition hb_check (ku vu : list Z) (st : bidi Z Z * list (Z * Z)) (x : bop Z Z * bsnap) :=
@@ -197,14 +212,14 @@ Definition hb_check (ku vu : list Z) (st : bidi Z Z * list (Z * Z)) (x : bop Z Z
   ((m', o'), kind_of (bobs_ok hb_model false m' ku vu sn)
                      (bobs_ok bij_spec false o' ku vu sn && bij_obs_ok ku vu sn)).
 
-Definition tb_check (ku vu : list Z) (st : T1.tb_state Z Z * list (Z * Z)) (x : bop Z Z * bsnap) :=
+Definition tb_check (ck cv : cmpsel) (ku vu : list Z) (st : T1.tb_state Z Z * list (Z * Z)) (x : bop Z Z * bsnap) :=
   let '(m, o) := st in
   let '(op, sn) := x in
-  let m' := fst (tb_model m op) in
+  let m' := fst (tb_model ck cv m op) in
   let o' := fst (bij_spec o op) in
-  ((m', o'), kind_of (bobs_ok tb_model true m' ku vu sn)
+  ((m', o'), kind_of (cmpsel_ok ck && cmpsel_ok cv && bobs_ok (tb_model ck cv) true m' ku vu sn)
                      (bobs_ok bij_spec false o' ku vu sn && bij_obs_ok ku vu sn
-                      && strictly_sorted (b_keys sn) && strictly_sorted (b_vals sn))).
+                      && sorted_by (cmp_of ck) (b_keys sn) && sorted_by (cmp_of cv) (b_vals sn))).
 
 (* ---------- set algebra ---------- *)
 Record asnap := AS { a_panic : bool;
@@ -227,7 +242,7 @@ Definition alg_prop (k : skind) (op : aop) (sn : asnap) : bool :=
   let ordered := match k with SHash => false | _ => true end in
   negb (a_panic sn)
   && nodupZ (a_r sn) && perm_eqb (a_r sn) (math_result op (a_a0 sn) (a_b0 sn))
-  && match k with STree => strictly_sorted (a_r sn) | SLinked => perm_eqb (a_rtable sn) (a_r sn) | SHash => true end
+  && match k with STree c => sorted_by (cmp_of c) (a_r sn) | SLinked => perm_eqb (a_rtable sn) (a_r sn) | SHash => true end
   && seq_eqb ordered (a_a1 sn) (a_a0 sn) && seq_eqb ordered (a_b1 sn) (a_b0 sn)
   && seq_eqb ordered (a_a2 sn) (a_a0 sn) && seq_eqb ordered (a_b2 sn) (a_b0 sn)
   && seq_eqb ordered (a_r2 sn) (a_r sn) && seq_eqb ordered (a_r3 sn) (a_r sn).
@@ -245,15 +260,15 @@ Definition alg_model (k : skind) (op : aop) (aops bops : list (sop Z)) (sn : asn
       zlist_eqb (a_a0 sn) (sordering a) && zlist_eqb (a_b0 sn) (sordering b)
       (* the order of the result follows Go's map iteration order: compared as a set *)
       && perm_eqb (a_r sn) (sordering r) && perm_eqb (a_rtable sn) (gkeys (stable r))
-  | STree =>
-      let a := fst (run ts_model ts_empty aops) in
-      let b := fst (run ts_model ts_empty bops) in
+  | STree c =>
+      let a := fst (run (ts_model c) ts_empty aops) in
+      let b := fst (run (ts_model c) ts_empty bops) in
       let r := match op with
-               | AUnion => ts_union zcmp a b
-               | AInter => ts_inter zcmp a b
-               | ADiff => ts_diff zcmp a b
+               | AUnion => ts_union (cmp_of c) a b
+               | AInter => ts_inter (cmp_of c) a b
+               | ADiff => ts_diff (cmp_of c) a b
                end in
-      zlist_eqb (a_a0 sn) (ts_values a) && zlist_eqb (a_b0 sn) (ts_values b) && zlist_eqb (a_r sn) (ts_values r)
+      cmpsel_ok c && zlist_eqb (a_a0 sn) (ts_values a) && zlist_eqb (a_b0 sn) (ts_values b) && zlist_eqb (a_r sn) (ts_values r)
   | SHash =>
       let ins := @ins_front Z unit in
       let a := fst (run hs_model [] aops) in
@@ -278,10 +293,10 @@ Definition check_case (c : case) : nat :=
   | CMap KHash u steps => scan (hm_check u) ([], []) steps 0
   | CMap KLinked u steps => scan (lhm_check u) (lhm0, []) steps 0
   | CSet SHash u steps => scan (gs_check u) ([], []) steps 0
-  | CSet STree u steps => scan (ts_check u) (ts_empty, []) steps 0
+  | CSet (STree c) u steps => scan (ts_check c u) (ts_empty, []) steps 0
   | CSet SLinked u steps => scan (ls_check u) (ls0, []) steps 0
   | CBidi BHash ku vu steps => scan (hb_check ku vu) (hb0, []) steps 0
-  | CBidi BTree ku vu steps => scan (tb_check ku vu) (T1.tb_empty Z Z, []) steps 0
+  | CBidi (BTree ck cv) ku vu steps => scan (tb_check ck cv ku vu) (T1.tb_empty Z Z, []) steps 0
   | CAlg k op aops bops sn => kind_of (alg_model k op aops bops sn) (alg_prop k op sn)
   end.
 
